@@ -220,7 +220,7 @@ func (pgMgr *PodGroupManager) PreEnqueue(ctx context.Context, pod *corev1.Pod) (
 	}
 
 	// check if gang is initialized
-	if !gang.HasGangInit {
+	if !gang.hasGangInit() {
 		return fmt.Errorf("gang has not init, gangName: %v, podName: %v", gang.Name,
 			util.GetId(pod.Namespace, pod.Name))
 	}
@@ -246,7 +246,7 @@ func (pgMgr *PodGroupManager) PreEnqueue(ctx context.Context, pod *corev1.Pod) (
 		// Subsequent Pods should be prevented from entering ActiveQ or BackoffQ to avoid the time-consuming deletion of them
 		if !gangSchedulingContext.alreadyAttemptedPods.Has(podKey) {
 			gangSchedulingContext.RUnlock()
-			return fmt.Errorf(ErrPodHasNotBeenAttempted, gang.GangGroupId)
+			return fmt.Errorf(ErrPodHasNotBeenAttempted, gang.getGangGroupId())
 		}
 		gangSchedulingContext.RUnlock()
 	}
@@ -267,7 +267,7 @@ func (pgMgr *PodGroupManager) basicGangRequirementsCheck(gang *Gang, pod *corev1
 			gangsOfGangIsNil = append(gangsOfGangIsNil, gangID)
 			continue
 		}
-		if !memberGang.HasGangInit {
+		if !memberGang.hasGangInit() {
 			gangsOfGangNotInit = append(gangsOfGangNotInit, gangID)
 			continue
 		}
@@ -308,7 +308,7 @@ func (pgMgr *PodGroupManager) BeforePreFilter(ctx context.Context, cycleState fw
 	}
 
 	// check if gang is initialized
-	if !gang.HasGangInit {
+	if !gang.hasGangInit() {
 		return fmt.Errorf("gang has not init, gangName: %v, podName: %v", gang.Name,
 			util.GetId(pod.Namespace, pod.Name))
 	}
@@ -327,14 +327,15 @@ func (pgMgr *PodGroupManager) BeforePreFilter(ctx context.Context, cycleState fw
 		return err
 	}
 	diagnosis := frameworkext.GetDiagnosis(cycleState)
-	diagnosis.QuestionedKey = gang.GangGroupId
+	gangGroupId := gang.getGangGroupId()
+	diagnosis.QuestionedKey = gangGroupId
 	gangSchedulingContext := pgMgr.holder.getCurrentGangSchedulingContext()
 	if gangSchedulingContext == nil {
 		gangSchedulingContext = &GangSchedulingContext{
 			firstPod:            pod,
-			gangGroup:           sets.New[string](gang.GangGroup...),
-			gangGroupID:         gang.GangGroupId,
-			networkTopologySpec: gang.NetworkTopologySpec,
+			gangGroup:           sets.New[string](gang.getGangGroup()...),
+			gangGroupID:         gangGroupId,
+			networkTopologySpec: gang.getNetworkTopologySpec(),
 		}
 		if gangSchedulingContext.networkTopologySpec != nil {
 			gangSchedulingContext.networkTopologySnapshot = pgMgr.handle.(frameworkext.ExtendedHandle).GetNetworkTopologyTreeManager().GetSnapshot()
